@@ -53,6 +53,27 @@ Definition expand (base n0 T : Z) : pad_res := pad_loop max_adjust true base T n
 (* the loop as it was on the pinned tree (kept for the recorded refutations) *)
 Definition expand_pinned (base n0 T : Z) : pad_res := pad_loop 2 false base T n0.
 
+(* Where the padding bytes come from (fourth wave).  The code appends `make([]byte, delta)`: as many bytes
+   as the step asks for (source None).  A source of bounded length `c` - a shared buffer sliced per step -
+   yields min(delta, c) bytes per step (source Some c).  With an unbounded source this is the loop above
+   (unbounded_source_is_expand); with ANY bounded one the three adjustments allowed cannot add more than
+   3 c bytes and reachable sizes are rejected (bounded_source_rejects_reachable). *)
+Fixpoint pad_loop_src (src : option Z) (left : nat) (base T n : Z) : pad_res :=
+  let size := msg_size base n in
+  let delta := T - size in
+  if delta =? 0 then POk n
+  else match left with
+       | O => PErr size
+       | S left' =>
+         if 0 <? delta
+         then pad_loop_src src left' base T (n + match src with None => delta | Some c => Z.min delta c end)
+         else match slice_to n (Z.max 0 (n + delta)) with
+              | None => PCrash
+              | Some k' => pad_loop_src src left' base T k'
+              end
+       end.
+Definition padding_source : option Z := None.
+
 (* ---------- the whole function: directives x request messages ---------- *)
 Inductive msg :=
 | Padded (base n : Z)        (* one of the request types with a request_data field *)
@@ -131,6 +152,27 @@ Definition documented_chain (limit : Z) : list reader := [PerMessage limit].
 (* the chain described by a table of call-site kinds; `cap` = whatever bound a per-body reader got *)
 Definition chain_of (kinds : list Z) (limit cap : Z) : list reader :=
   map (fun k => if k =? 0 then PerMessage limit else PerBody cap) kinds.
+
+(* ---------- what the peers do with the limit and with a receive error (fourth wave) ---------- *)
+(* referenceclient/client.go invoke: the request's message_receive_limit, when there is one, is handed
+   to the RPC library as ONE per-message reader.  The codec of the RPC (1 = proto, 2 = JSON, ...) is an
+   argument because the code could consult it; that it is irrelevant is client_limit_any_codec: the
+   limit is on the message as the codec of the RPC encodes it, whatever that codec is. *)
+Definition client_readers (codec limit : Z) : list reader :=
+  if 0 <? limit then [PerMessage limit] else [].
+
+(* referenceserver/impl.go ClientStream: the handler drains the request stream (Receive stops at the first
+   message the library refuses), looks at stream.Err() FIRST and only then at what the response definition
+   of the first request asks for: a normal response or an error of the test author's choosing. *)
+Inductive cs_def := DefData | DefError.
+Inductive cs_outcome := OResponse | ODefinedError | OExhausted.
+Definition client_stream_handler (limit : Z) (def : cs_def) (sizes : list Z) : cs_outcome :=
+  match first_rejected limit sizes with
+  | Some _ => OExhausted
+  | None => match def with DefData => OResponse | DefError => ODefinedError end
+  end.
+Definition outcome_code (o : cs_outcome) : Z :=
+  match o with OResponse => 0 | ODefinedError => 1 | OExhausted => 2 end.
 
 (* ---------- the loader: which test cases of a suite get expanded ---------- *)
 (* parseTestSuites, per suite file: for every test case, in order: a case that carries expand
@@ -214,6 +256,12 @@ Definition run_c19_expand (args : list sx) : sx :=
    Result: (limit size accepted) *)
 Definition run_c19_sharp (args : list sx) : sx :=
   or_bad (match args with
+  | [I side; I off; I _; I _; I _; I _; I _; I codec] =>
+    (* the codec of the RPC given: the verdict of the readers the client's set-up installs for it *)
+    let limit := if side =? 0 then c19_server_receive_limit else c19_client_receive_limit in
+    let size := limit + off in
+    ret (L [I limit; I size;
+            sx_bool (if side =? 0 then accepts limit size else chain_accepts (client_readers codec limit) [size])])
   | I side :: I off :: _ =>
     let limit := if side =? 0 then c19_server_receive_limit else c19_client_receive_limit in
     let size := limit + off in
@@ -269,6 +317,22 @@ Definition run_c19_stream (args : list sx) : sx :=
              | Some i => if (side =? 1) || (st =? 5) then Z.of_nat i else -2
              end in
     ret (L [I limit; L (map I sizes); sx_bool (chain_accepts (documented_chain limit) sizes); I k])
+  | [I side; offs; I _; I _; I _; I _; I st; I _; I codec; I def] =>
+    (* + the codec of the RPC (side 1: message i has limit + offs[i] bytes in THAT codec's encoding) and the kind
+       of response definition the first request carries (side 0, client stream); a fifth result: the outcome *)
+    do offs <- un_listof un_Z offs;
+    let limit := if side =? 0 then c19_server_receive_limit else c19_client_receive_limit in
+    let sizes := map (fun o => limit + o) offs in
+    let k := match first_rejected limit sizes with
+             | None => -1
+             | Some i => if (side =? 1) || (st =? 5) then Z.of_nat i else -2
+             end in
+    let acc := if side =? 0 then chain_accepts (documented_chain limit) sizes
+               else chain_accepts (client_readers codec limit) sizes in
+    let out := if (side =? 0) && (st =? 2)
+               then outcome_code (client_stream_handler limit (if def =? 1 then DefError else DefData) sizes)
+               else if acc then 0 else 2 in
+    ret (L [I limit; L (map I sizes); sx_bool acc; I k; I out])
   | _ => None end).
 
 (* ("c19.load" id flag mode (codecs) ((streamType (msgs) (dirs))...)): one suite file through
